@@ -100,29 +100,33 @@ claim("C05",
       "sample_jds_from_jdd runs with symbolic positive weights and symbolic draw indices (random.choices / randrange "
       "stubs); divisibility, never-removes and minimal-addition are integer queries valid for every draw outcome on "
       "the path; the weighted-draw law is the cross-ratio identity of the weights handed to the single choices call",
-      "bounded: N<=3/4, <=3/4 keys, <=2 topologies, entries <=2/3; trusts random.choices' weighting; a sampler not "
-      "built on random.choices is reported undecided",
+      "bounded: N<=3/4, <=3/4 keys, <=3 topologies (duplicate motif sizes included), entries <=2/3, numpy-scalar keys, "
+      "resample histories on one loader; trusts random.choices' weighting; a sampler not built on random.choices is "
+      "reported undecided",
       "DESIGN.md 4/C05")
 claim("C06",
       "every loader is run with symbolic payload (weights, marginal values and joint-function values are fresh positive "
       "reals from harness lookup tables, bounds and observed sequences are solver variables forked at range/Counter); "
       "support and values are compared with the documented law, directly and through the dispatcher",
-      "bounded: width<=3/4, <=2/3 topologies, sequences <=3/4, n_samples<=3; both readings of the degree interval "
+      "bounded: width<=3/4, <=2/3 topologies, sequences <=3/4, n_samples<=3, one concrete 320x321 box (no RNG call "
+      "allowed in direct mode), other loader objects built before and after; both readings of the degree interval "
       "accepted; sampling mode decided structurally (draw call + frequency table), its convergence is statistical",
       "DESIGN.md 4/C06")
 claim("C07",
       "split-degree and delta loaders run with symbolic fp(k) and per-topology probabilities; overall-degree law, "
       "within-degree split and normalisation are QF_NRA identities against independently enumerated splits, for every "
       "forked range and target (inside, at the edges, outside)",
-      "bounded: k<=4/7, <=3/4 topologies; where the direct normalisation query times out it is decided from the "
-      "discharged overall-law lemma (recorded in evidence notes)",
+      "bounded: k<=4/7, <=3/4 topologies, probability vectors with exact zeros, degrees around 258 (support only), a "
+      "second loader from the same parameter objects, caller's list unchanged; where the direct normalisation query "
+      "times out it is decided from the discharged overall-law lemma (recorded in evidence notes)",
       "DESIGN.md 4/C07")
 claim("C08",
       "the cover itself is made of solver variables (sizes, members, with the contiguity precondition as constraint) "
       "and forked exhaustively; reported motif sizes, column count and the per-vertex clique counts are compared with "
       "a direct count",
-      "bounded exhaustive symbolic exploration: <=2/3 cliques over <=5 vertices plus size-pattern families over 6; "
-      "the table is concrete on each path",
+      "bounded exhaustive symbolic exploration: <=2/3 cliques over <=5 vertices (1-cliques over <=4), size-pattern "
+      "families over 6, covers with an 8/9-clique, two concrete high-multiplicity covers, a cover given through the "
+      "setter; the table is concrete on each path",
       "DESIGN.md 4/C08")
 
 claim("C09",
